@@ -409,9 +409,13 @@ private:
 		static_assert(PrototypeInfo::index >= 0, "Can't find invoker for the given argument types.");
 		static_assert(std::tuple_size<typename PrototypeInfo::ArgsTuple>::value == 1 + sizeof...(Args), "Arguments count mismatch.");
 
+		// The event must be obtained before `first` is forwarded into the arguments tuple below;
+		// inside one argument list the evaluation order is unspecified and `first` may be moved from.
+		const EventType_ event = GetEvent::getEvent(std::forward<T>(first), args...);
+
 		doEnqueueItem(QueuedItemType(
 			PrototypeInfo::index,
-			GetEvent::getEvent(std::forward<T>(first), args...),
+			event,
 			&HeterEventQueueBase::doDispatchItem<PrototypeInfo>,
 			typename PrototypeInfo::ArgsTuple(std::forward<T>(first), std::forward<Args>(args)...)
 		));
